@@ -117,7 +117,7 @@ def r11_1(ctx):
             continue
         for m in ms:
             sites.setdefault(m, []).append((f, c))
-            ok = f.name in PERMITTED.get(m, ())
+            ok = f.name in PERMITTED.get(m, ()) or _only_called_from(prog, f, PERMITTED.get(m, ()))
             ctx.ob('R11.1', '%s:emits:%s' % (f.name, m), ok, f.loc(c),
                    '%s is emitted by %s (permitted)' % (m, f.name) if ok else
                    '%s is emitted by %s, which is not one of its permitted emitters (%s)' % (
@@ -131,6 +131,25 @@ def r11_1(ctx):
     return sites
 
 
+def _only_called_from(prog, f, permitted, depth=0):
+    """f is a static helper all of whose callers are permitted emitters (or static
+    helpers of permitted emitters): the emission belongs to those emitters"""
+    if not getattr(f, 'static', False) or depth > 3:
+        return False
+    callers = [g for g in f.tu.fn_list if any(c.get('callee') == f.name for c in g.calls())]
+    if not callers:
+        return False
+    # its address must not be taken: then callers are exactly the direct ones
+    for g in f.tu.fn_list:
+        for n in g.all_nodes():
+            if n['k'] == 'ref' and n.get('name') == f.name:
+                par = g.parent(n)
+                if not (par is not None and par['k'] == 'call' and g.kid(par, 0) is n) and \
+                        not (par is not None and par['k'] == 'call' and par.get('callee') == f.name):
+                    return False
+    return all(g.name in permitted or _only_called_from(prog, g, permitted, depth + 1) for g in callers)
+
+
 def _rule_message_call(ctx, f):
     for g, c in callback_calls(ctx.prog, fixture=ctx.fixture):
         if g is f:
@@ -140,10 +159,20 @@ def _rule_message_call(ctx, f):
     return None
 
 
+def _reporting_function(ctx):
+    """the function that holds the per-rule reporting loop: the scan funnel, or a
+    static helper it was extracted into"""
+    top = ctx.fn('yr_scanner_scan_mem_blocks', 'libyara/scanner.c')
+    for h in cu.family(ctx.prog, top):
+        c = _rule_message_call(ctx, h)
+        if c is not None:
+            return h, c
+    return top, None
+
+
 def r11_2(ctx):
     prog = ctx.prog
-    f = ctx.fn('yr_scanner_scan_mem_blocks', 'libyara/scanner.c')
-    call = _rule_message_call(ctx, f)
+    f, call = _reporting_function(ctx)
     ctx.require(call is not None, 'rule-message callback call not found')
     loop = None
     for a in f.ancestors(call):
@@ -158,17 +187,44 @@ def r11_2(ctx):
     M = msgs.get('CALLBACK_MSG_RULE_MATCHING')
     NM = msgs.get('CALLBACK_MSG_RULE_NOT_MATCHING')
     # (a) order: starts at table entry 0 / index 0, steps by one, ends at NULL rule
-    itxt = f.show(init) if init is not None else ''
-    ok_init = 'i = 0' in itxt and 'rules_table' in itxt
+    from .C14 import canon
+    # roles: the rule cursor is what the callback receives as message data; the index
+    # is the other variable advanced by the loop step
+    R = canon(f, f.call_args(call)[2])
     inctxt = f.show(inc) if inc is not None else ''
-    ok_inc = 'i++' in inctxt and 'rule++' in inctxt
+    stepped = []
+    if inc is not None:
+        for x in f.walk(inc):
+            if x['k'] == 'un' and x['op'] in ('++', 'post++'):
+                stepped.append(canon(f, f.kid(x, 0)))
+            elif x['k'] == 'bin' and x['op'] == '+=' and cu.const_of(cu.strip_casts(f, f.kid(x, 1))) == 1:
+                stepped.append(canon(f, f.kid(x, 0)))
+    idxs = [v for v in stepped if v != R]
+    ok_inc = sorted(stepped) == sorted(set(stepped)) and R in stepped and len(idxs) == 1
+    I = idxs[0] if idxs else None
+
+    def initial_values(var):
+        out = []
+        for x in f.all_nodes():
+            if x['k'] == 'decl' and x['name'] == var and x.get('c'):
+                out.append(f.kid(x, 0))
+            elif x['k'] == 'bin' and x['op'] == '=' and canon(f, f.kid(x, 0)) == var:
+                out.append(f.kid(x, 1))
+        return out
+    rinit = initial_values(R)
+    iinit = initial_values(I) if I else []
+    ok_init = bool(rinit) and all(canon(f, e).endswith('rules_table') for e in rinit) and \
+        bool(iinit) and all(cu.const_of(cu.strip_casts(f, e)) == 0 for e in iinit)
+    itxt = '%s = %s; %s = %s' % (R, ', '.join(canon(f, e) for e in rinit)[:40], I,
+                                ', '.join(canon(f, e) for e in iinit)[:20])
     ctxt = f.show_sym(cond) if cond is not None else ''
-    ok_cond = 'RULE_FLAGS_NULL' in ctxt or 'flags & 4' in f.show(cond)
+    ok_cond = cond is not None and ('RULE_FLAGS_NULL' in ctxt or 'flags & 4' in f.show(cond)) and \
+        R in f.show(cond)
     ctx.ob('R11.2', 'loop:definition-order', ok_init and ok_inc and ok_cond, where,
            'reporting loop walks rules_table from entry 0 in steps of one up to the NULL rule'
            if ok_init and ok_inc and ok_cond else
            'reporting loop no longer walks the rule table in definition order (init `%s`, '
-           'step `%s`, condition `%s`)' % (itxt[:50], inctxt[:30], ctxt[:40]))
+           'step `%s`, condition `%s`)' % (itxt[:70], inctxt[:30], ctxt[:40]))
     # (b) exactly one callback call in the loop
     n_calls = sum(1 for g, c in callback_calls(prog, fixture=ctx.fixture)
                   if g is f and f.is_ancestor(loop, c))
@@ -281,8 +337,7 @@ def r11_2(ctx):
 
 def r11_3(ctx):
     prog = ctx.prog
-    f = ctx.fn('yr_scanner_scan_mem_blocks', 'libyara/scanner.c')
-    call = _rule_message_call(ctx, f)
+    f, call = _reporting_function(ctx)
     ctx.require(call is not None, 'rule-message callback call not found')
     ABORT = prog.macro_value('CALLBACK_ABORT')
     ERR = prog.macro_value('CALLBACK_ERROR')
